@@ -303,6 +303,17 @@ def run(chk):
         return
     scope_common.run_scope(chk, ["use"], "Undefined", 400 if thorough else 30, 8 if thorough else 4)
     ctor_correspondence(chk, 6000 if thorough else 800)
+    # what the checker accepts must not read an unbound name when it RUNS either: generated programs whose definitions are
+    # fed by nested block-form conditionals / matches / handled calls (the assignment is pushed down to every path end by
+    # the desugaring) are executed
+    import gen_prog
+    bd = [q for q in (gen_prog.Gen(chk.rng).program() for _ in range(600 if thorough else 160)) if "blockdef" in str(q.items)][: (80 if thorough else 20)]
+    bres = sweep.transpile(chk, [q.text for q in bd])
+    jobs = [(q, a, r[a][1]) for q, r in zip(bd, bres) for a in (0, 1) if r[a][0] == "ok"]
+    for (q, a, py), (lines, outcome, message) in zip(jobs, sweep.run_python_msg([j[2] for j in jobs])):
+        if outcome.endswith(("NameError", "UnboundLocalError")) and len(chk.violations) < 5:
+            chk.violation("input", "annotate=%d: an accepted program reads an unbound name when it runs: %s" % (a, message[:200]), case={"kind": "prog", "text": q.text}, actual=py[:2500])
+    chk.cov["executed_block_definitions"] = {"programs": len(bd), "runs": len(jobs)}
     cases = matrix()
     if not thorough:
         keep = [c for c in cases if "/next-statement/" in c[0] or not c[0].startswith("escape/")]
